@@ -196,7 +196,22 @@ def main() -> int:
     by_solver: dict[str, int] = {}
     samples: list[dict] = []
     for r in all_results:
-        if r["kind"] in ("vacuity", "subset", "fault") or r["status"] == ERROR:
+        if r["kind"] == "subset":
+            # the function (as it is now) uses something the executor does not model: not a verdict of the deductive
+            # stage.  Stage 2 may still find a concrete failing input of its contract; otherwise the property is undecided.
+            tag = hashlib.sha256(r["label"].encode()).hexdigest()[:10]
+            rpath = os.path.join(VERIF, "replays", f"{pid}-{tag}.py")
+            cscript = ("import subprocess, sys\n"
+                       f"# {r['func']} could not be symbolically executed ({r['reason'][:200]}); bounded native search over its contract:\n"
+                       f"sys.exit(subprocess.call([sys.executable, '/verif/replay/concretise.py', {r['func']!r}, 'any', '6000']))\n")
+            c_ok, c_out = run_replay(cscript, rpath)
+            if c_ok is True:
+                violations.append(f"VIOLATION property={pid} replay={rpath} obligation={r['func']}/contract (function outside the executor's subset; bounded native search found a failing input)")
+                n_obl += 1
+            else:
+                undecided.append(f"{r['label']}: {r['reason'][:300]}")
+            continue
+        if r["kind"] in ("vacuity", "fault") or r["status"] == ERROR:
             faults.append(f"{r['label']}: {r['reason'][:300]}")
             continue
         solver_s += r.get("seconds", 0.0)
